@@ -20,6 +20,7 @@ func c12Check(c MetricCase) (r evid.Result) {
 	r.Class(true, "op="+m.Op)
 	litLeft := m.L.Kind == "literal"
 	litRight := m.R.Kind == "literal"
+	r.Class(m.L.Kind == "binop" || m.R.Kind == "binop", "nested-operand")
 	r.Class(litLeft, "literal-left")
 	r.Class(litRight, "literal-right")
 	r.Class(!litLeft && !litRight, "vector-vector")
@@ -156,6 +157,30 @@ func c12Gen(t *rapid.T) MetricCase {
 					}
 				}
 			}
+		}
+	}
+	// Sometimes one side is itself a (parenthesised) division or modulo by a literal - 0 included,
+	// so that NaN values meet the outer operator.
+	if kind != "set" && rapid.IntRange(0, 3).Draw(t, "nested-nan") == 0 {
+		wrap := func(side *gen.Metric, label string) *gen.Metric {
+			if side.Kind == "literal" {
+				return side
+			}
+			lit := rapid.SampledFrom([]struct {
+				text string
+				v    float64
+			}{{"0", 0}, {"0", 0}, {"1", 1}, {"2", 2}}).Draw(t, label+"-divisor")
+			inner := &gen.Metric{Kind: "binop", Op: rapid.SampledFrom([]string{"/", "%"}).Draw(t, label+"-op"), L: side,
+				R: &gen.Metric{Kind: "literal", Value: lit.v, ValueText: lit.text}, Parens: 1}
+			return inner
+		}
+		if rapid.Bool().Draw(t, "nested-left") {
+			m.L = wrap(m.L, "nl")
+		} else {
+			m.R = wrap(m.R, "nr")
+		}
+		if rapid.IntRange(0, 2).Draw(t, "nested-both") == 0 {
+			m.L, m.R = wrap(m.L, "nl2"), wrap(m.R, "nr2")
 		}
 	}
 	// Unwrap is needed for sum/max_over_time sides.
